@@ -5,18 +5,18 @@ import json, subprocess
 TREE = {
  "C01": ("6/C01", "dispatch oracle: for every applied trigger the multiset of reaction commands the framework applies (hook Apply events inside the op's bracket) equals the registrations of a shadow table rebuilt from applied register/revoke ops, entity deaths and polls; one generated case in eight is a world-reactor history (engine wr16: add / partial and full remove / trigger / despawn over WorldReactors and EntityWorldReactors) judged by its run-set oracle; a reaction scheduled for a live registration that is aborted, discarded or never run is reported"),
  "C02": ("6/C02", "delivery life-cycle oracle: every applied command has exactly one terminal outcome (ran once / aborted because its target is gone) before the tree's flush returns; postponement only while the target executes; replay at completion of the blocker; a system collected although it still has triggers while deliveries wait for it is reported (they can no longer run although their target should exist)"),
- "C03": ("6/C03", "reader oracle: every run's full reader sample equals the data of the delivery that started it (payload id, entity), all other readers empty, at body start and body end; convenience accessors (read / entity / get_entity / is_empty) agree with the primary ones"),
+ "C03": ("6/C03", "reader oracle: every run's full reader sample equals the data of the delivery that started it (payload id, entity), all other readers empty, at body start and body end; convenience accessors (read / entity / get_entity / is_empty) agree with the primary ones; exclusive systems call a one-off helper system (World::syscall_once) in their body and still see their event afterwards"),
  "C04": ("6/C04", "probe oracle: probes (syscall'd plain and exclusive systems with every reader) at generated tree positions read nothing; runs read nothing beyond their own event; second take fails; reacting flags clear between trees"),
  "C05": ("6/C05", "payload life-cycle oracle: Drop-logging payloads are dropped exactly once, not before every scheduled reader's body has ended or been aborted, immediately when nobody listens, by the end of the tree; no bookkeeping entity survives; events are sent through ReactCommands (all ways of obtaining one), Commands::send_system_event and, from inside queued command closures, the World wrappers (send_system_event / broadcast / entity_event)"),
  "C06": ("6/C06", "revocation oracle: shadow-table dispatch after applied revokes (same tree and later), table sizes and per-reactor registration counts (hook snapshot) equal the shadow table at every quiescent point; a poll that owes a removal / despawn reaction to a never-revoked registration after a related revocation is reported; one generated case in eight is a world-reactor history (engine wr16) judged by its run-set oracle: triggers removed from a world reactor stop scheduling it at once, the others keep working"),
  "C07": ("6/C07", "lifetime oracle: reference-count model of every non-persistent registration call; GC events must name exactly the doomed reactors at the first collection; liveness at end of frame equals 'has a trigger left'; system state (canary) dropped exactly with the reactor; handles carried by payloads and by mid-body calls are followed; reactors registered before the plugin is installed (a persistent and a revokable sentinel) obey the same rules; one generated case in eight is a world-reactor history (engine wr16) judged by the part of its oracle this property shares (a world reactor's system is never despawned or duplicated)"),
  "C08": ("6/C08", "removal/despawn oracle: removals and despawns caused by commands, direct world access, plain Bevy systems in four slots of the frame, recursive despawn and automatic despawn (signal dropped, collected by the next garbage collection); per poll, reactions applied per (reactor, entity, component) lie between 'registered throughout' and 'registered at poll'; despawn reactions exactly the in-flight registrations; nothing pending after the end-of-frame poll; one generated case in eight is a world-reactor history (engine wr16) judged by the part of its oracle this property shares (run set of removal / despawn reactions of world reactors)"),
- "C09": ("6/C09", "structural order oracle: well-nested trace (ops of a run applied in queued order while it is innermost, every command applied inside its op's bracket or a poll, postponed commands replayed inside the completion of their blocker, never dropped instead of postponed; polled despawn reactions run within the tree whose poll took them; when the outermost runner call returns nothing is left unpolled; manual runs applied directly from inside an exclusive body; trees of 140-260 and of 1100 queued runs; a delivery to a live system that neither ran nor was postponed by the end of its tree is reported)"),
+ "C09": ("6/C09", "structural order oracle: well-nested trace (ops of a run applied in queued order while it is innermost, every command applied inside its op's bracket or a poll, postponed commands replayed inside the completion of their blocker, never dropped instead of postponed; polled despawn reactions run within the tree whose poll took them; when the outermost runner call returns nothing is left unpolled; manual runs applied directly from inside an exclusive body; trees of 140-260, 1100 and 2100 queued runs (all postponed when the target is the sender); a delivery to a live system that neither ran nor was postponed by the end of its tree is reported)"),
  "C11": ("6/C11", "quiescence invariant from the hook snapshot after every tree (counter, postponed buffer, four prepared lists, four reacting flags, callbacks present) and no surviving event data entity, over sequences of trees with aborts/postponements"),
- "C12": ("6/C12", "order oracle: deliveries from one sender to one target start, and their data is consumed, in the order sent (per payload id); a removal / despawn caused earlier by the same run is reacted to before a later delivery of that run to the same target starts (also when the poll in between owed the reaction and did not deliver it); the reactions one system gets for the removals of one component are queued in the order the removals happened; a run that misses its own data while the sender has other deliveries to the same target is reported; a despawn performed by a collection belongs to the run that dropped the last signal (the collection at a runner's entry comes before its poll)"),
+ "C12": ("6/C12", "order oracle: deliveries from one sender to one target start, and their data is consumed, in the order sent (per payload id); a removal / despawn caused earlier by the same run is reacted to before a later delivery of that run to the same target starts (also when the poll in between owed the reaction and did not deliver it); the reactions one system gets for the removals of one component are queued in the order the removals happened; a run that misses its own data while the sender has other deliveries to the same target is reported; a despawn performed by a collection belongs to the run that dropped the last signal (the collection at a runner's entry comes before its poll); a delivery never processed while its siblings were is reported"),
  "C13": ("6/C13", "state oracle: the k-th run of every registration sees Local == captured counter == k; its Bevy change-detection baseline (ReactRes::is_changed sampled by every generated system, predicted from the applied resource mutations) is exactly its previous run (exclusive systems: World change ticks since their previous flush); state dropped only with the system; a system that is collected or gone while it still has registered triggers is reported (state lost while it should live); one generated case in eight is a world-reactor history (engine wr16) judged by the part of its oracle this property shares (Local continuity of world reactors, their system never gone); the parameter state of exclusive systems is constructed at most once per system (counted FromWorld)"),
  "C15": ("6/C15", "one-off oracle: dispatch/lifetime/run-count oracles specialised to reactors registered with `once` (at most one run, gone and unregistered afterwards, empty bundle dropped)"),
- "C18": ("6/C18", "fault-injection oracle (plus one generated case in eight from the world-reactor engine wr16, incl. EntityReactor::add on an entity despawned earlier in the same batch, and one in eight from the syscall engine sys17, panics only: spawned systems despawned before or during a call): ops naming despawned systems/entities; no panic, no run of a dead system, payload released, every other oracle still holds in that tree; system events aimed at entities that carry no system; automatic despawn requests naming dead entities"),
+ "C18": ("6/C18", "fault-injection oracle (plus one generated case in eight from the world-reactor engine wr16, incl. EntityReactor::add on an entity despawned earlier in the same batch, and one in eight from the syscall engine sys17, panics only: spawned systems despawned before or during a call): ops naming despawned systems/entities; no panic, no run of a dead system, payload released, every other oracle still holds in that tree; system events aimed at entities that carry no system or at Entity::PLACEHOLDER; automatic despawn requests naming dead entities"),
 }
 
 def check(pid, engine, design, text, technique, note):
@@ -32,7 +32,7 @@ def check(pid, engine, design, text, technique, note):
         "technique": technique,
     }
 
-NOTE = ("exploration only: absence of a violation is evidence over the generated, counted space (<= 8 systems, <= 5 entities, 2 component / event / resource types; in a third of the programs a sibling App works on the same thread between the top-level ops); "
+NOTE = ("exploration only: absence of a violation is evidence over the generated, counted space (<= 8 systems, <= 5 entities, 2 component / event / resource types; in a third of the programs a sibling App works on the same thread between the top-level ops, a quarter run under a tracing subscriber that enables every level); "
         "trusts the `verif` hook events, bevy 0.15 command-queue semantics and the generator soundness rules of DESIGN.md section 4")
 
 checks = []
@@ -49,7 +49,7 @@ checks.append(check("C17", "sys17", "6/C17",
     "property-based testing: proptest-generated call histories, reference model oracle, shrinking, JSON replay",
     "exploration only; a re-entrant call on a running syscall / named key is generated with its own count left open (documented: only the outer-most invocation's state persists)"))
 checks.append(check("C10", "rc10", "6/C10",
-    "reference-count oracle: histories of prepare / clone / drop / garbage-collect / app.update / manual-despawn / spawn-child / reparent operations plus worker-thread drops, injected faults (a clone dropped by the unwinding of a caught panic; worker threads dying while holding clones) and clones held by components of other entities (dropped in the middle of a collection pass); after every operation the set of live entities equals the count model (collected exactly when the last clone is gone, with descendants; never earlier; collections idempotent); a collection pass interrupted by a panicking removal hook loses nothing that waited behind the fault; two clones of 40-160 entities dropped by two barrier-released threads; half of the cases run under the whole ReactPlugin with commands / system events aimed at counted entities (the runner must leave them alone) and despawn reactors registered on them; counted entities made by spawn_rc_system_command(_from) / spawn_rc_system(_from), whose spawned system can be called and can strip its own entity during the call; a second world on the same thread that collects in between, or from a component's Drop in the middle of a pass of the first world",
+    "reference-count oracle: histories of prepare / clone / drop / garbage-collect / app.update / manual-despawn / spawn-child / reparent operations plus worker-thread drops, injected faults (a clone dropped by the unwinding of a caught panic; worker threads dying while holding clones) and clones held by components of other entities (dropped in the middle of a collection pass); after every operation the set of live entities equals the count model (collected exactly when the last clone is gone, with descendants; never earlier; collections idempotent); a collection pass interrupted by a panicking removal hook loses nothing that waited behind the fault; two clones of 40-160 entities dropped by two barrier-released threads; half of the cases run under the whole ReactPlugin with commands / system events aimed at counted entities (the runner must leave them alone) and despawn reactors registered on them; counted entities made by spawn_rc_system_command(_from) / spawn_rc_system(_from), whose spawned system can be called and can strip its own entity during the call; a second world on the same thread that collects in between, or from a component's Drop in the middle of a pass of the first world; a burst of 2100 entities before one collection",
     "property-based testing: proptest-generated operation histories (incl. OS-thread drop schedules), reference-count model oracle, shrinking, JSON replay",
     "exploration only; thread interleavings are sampled by the OS scheduler, not enumerated (the checked invariants are schedule independent)"))
 checks.append(check("C16", "wr16", "6/C16",
